@@ -754,7 +754,8 @@ def queries(tier):
             "front of statement k of the ombott code it executes (every k in 1..%d, scheduling points inserted from the current "
             "source) simulated thread T1 serves a complete %s request %r on another application; LIFO, one preemption"
             % (STMT_CASES[c0], n0, "Content-Length framed" if cl1 else "chunked", STMT_CASES[c1]),
-            400, ["preempted", "413", "200"], "stmt", {"t0": c0, "t1": c1, "statements": n0})
+            400, ["preempted"] + (["413"] if "over" in (c0, c1) else []) + (["200"] if (c0, c1) != ("over", "over") else []),
+            "stmt", {"t0": c0, "t1": c1, "statements": n0})
     ints = "all sizes/limits in [0,2^20], buffer=max_memfile_size t in [1,2^20]"
     for nfrag, trips in ([(1, 2), (2, 2), (3, 2)] if not T else [(1, 3), (2, 3), (3, 3)]):
         add("cl/int/limited/f%d" % nfrag, make_cl(nfrag, trips, True),
